@@ -193,6 +193,7 @@ std::vector<Slot> g_slots;
 std::string g_replay_dir = "replays";
 std::string g_tier = "quick";
 bool g_verbose = false;
+FILE* g_dump_outcomes = nullptr;    // --dump-outcomes: every distinct outcome string, one per line
 
 void start_slots()
 {
@@ -354,8 +355,11 @@ void explore_spec(int si, int bound, double budget, SpecStats& st, Violation& vi
         }
         st.hashes.insert(r->hash);
         if (r->focus_switches > 0 || r->switches > 1) st.nontrivial.insert(r->hash);
-        if (r->outcome_hash && st.outcomes.insert(r->outcome_hash).second && st.outcome_samples.size() < 6)
-            st.outcome_samples.push_back(r->outcome_str);
+        if (r->outcome_hash && st.outcomes.insert(r->outcome_hash).second)
+        {
+            if (st.outcome_samples.size() < 6) st.outcome_samples.push_back(r->outcome_str);
+            if (g_dump_outcomes) fprintf(g_dump_outcomes, "%s\t%s\n", sp.name, r->outcome_str);
+        }
         if (st.samples.size() < 3 && (st.execs == 1 || (r->focus_switches > 0 && st.execs % 7 == 3)))
             st.samples.push_back(std::string("{\"spec\":\"") + sp.name + "\",\"choices\":" + choices_str(r, 64) +
                 ",\"threads\":" + std::to_string(r->threads) + ",\"focused_points\":" + std::to_string(r->points) +
@@ -674,6 +678,7 @@ extern "C" int pmc_main(int argc, char** argv, const pmc_config* cfg, const pmc_
         else if (a == "--replay-dir") g_replay_dir = next();
         else if (a == "--known") { std::string k = next(); size_t p = 0; while (p < k.size()) { size_t e = k.find(',', p); if (e == std::string::npos) e = k.size(); if (e > p) g_known.insert(k.substr(p, e - p)); p = e + 1; } }
         else if (a == "--verbose") g_verbose = true;
+        else if (a == "--dump-outcomes") { std::string f = next(); g_dump_outcomes = fopen(f.c_str(), "w"); }
         else if (a == "--choices") choices_arg = next();
         else if (a == "--list") { for (int s = 0; s < nspecs; ++s) printf("%s\n", specs[s].name); return 0; }
     }
@@ -852,5 +857,6 @@ extern "C" int pmc_main(int argc, char** argv, const pmc_config* cfg, const pmc_
         fprintf(f, "\n ]\n}\n");
         fclose(f);
     }
+    if (g_dump_outcomes) fclose(g_dump_outcomes);
     return rc;
 }
